@@ -6,6 +6,37 @@ import os
 import sys
 
 spec = json.load(open(sys.argv[1]))
+if "plan" in spec:
+    # a free interleaving of tracing and compiling: [["trace", path, slot] | ["compile", slot] | ["script", path, slot]]...;
+    # prints the MIR (or error) obtained for spec["report"]
+    for _st in spec["plan"]:
+        if _st[0] == "trace":
+            _d = os.path.dirname(os.path.abspath(_st[1]))
+            if _d not in sys.path:
+                sys.path.insert(0, _d)
+    from nada_dsl.compiler_frontend import nada_dsl_to_nada_mir
+    from nada_dsl.compile import compile_script
+    outs, mirs, log = {}, {}, []
+    for st in spec["plan"]:
+        try:
+            if st[0] == "trace":
+                src = open(st[1], encoding="utf-8").read()
+                ns = {"__name__": "prog"}
+                exec(compile(src, st[1], "exec"), ns)
+                outs[st[2]] = ns["nada_main"]()
+            elif st[0] == "compile":
+                mirs[st[1]] = {"ok": nada_dsl_to_nada_mir(outs[st[1]])}
+            else:
+                mirs[st[2]] = {"ok": json.loads(compile_script(st[1]).mir)}
+            log.append("ok")
+        except Exception as e:    # noqa
+            log.append(type(e).__name__)
+            if st[0] != "trace":
+                mirs[st[-1]] = {"exc": type(e).__name__, "msg": str(e)[:300], "phase": st[0]}
+    r = mirs.get(spec["report"], {"exc": "NotCompiled", "msg": "", "phase": "plan"})
+    r["log"] = log
+    print(json.dumps(r))
+    sys.exit(0)
 for _p in spec["steps"] + [spec["probe"]]:
     _d = os.path.dirname(os.path.abspath(_p))      # helper modules next to a program can be imported by it
     if _d not in sys.path:
